@@ -1853,14 +1853,16 @@ class Array:
         res._set_shape()
         res.qtotal = self.qtotal.copy()  # modified!
         for a in axes:
-            res.qtotal -= self.legs[a].get_charge(0)
+            res.qtotal -= self.legs[a].get_charge(self.legs[a].get_qindex(0)[0])  # block of the single index
         res.qtotal = self.chinfo.make_valid(res.qtotal)
 
         labels = self.get_leg_labels()
         res.iset_leg_labels([labels[a] for a in keep])
 
-        res._data = [np.squeeze(t, axis=axes).copy() for t in self._data]
-        res._qdata = np.asarray(self._qdata[:, np.array(keep)], order='C')
+        # blocks of size 0 along a squeezed leg contain no data and can not be kept
+        keep_blocks = np.array([i for i, t in enumerate(self._data) if all([t.shape[a] == 1 for a in axes])], np.intp)
+        res._data = [np.squeeze(self._data[i], axis=axes).copy() for i in keep_blocks]
+        res._qdata = np.asarray(self._qdata[keep_blocks][:, np.array(keep)], order='C')
         # res._qdata_sorted doesn't change
         return res
 
